@@ -1,7 +1,137 @@
-(* props/C04.v — placeholder while the invariance lemmas are being closed. *)
-From Coq Require Import List NArith ZArith String.
+(* props/C04.v — decoding is total: a model or DecodeValidationError.
+
+   Models: Parse.v ([parse_kind] / [parse_cls]: the structural layer, generic in the schema),
+   Validators.v (repo-side hooks), Accept.v ([decode_job] / [decode_env]: version dispatch of
+   _parse.py + parse + validators), ScopeWalk.v ([prevalidate]: the pre-validation walk on raw data).
+   Outcomes of the acceptance model:  Ok v = a model is returned;  Raise ValueError = rejected
+   (DecodeValidationError);  Raise RuntimeError = the input is outside the modelled pydantic domain
+   (the harness does not judge such inputs with the model; it still checks the implementation's
+   exception family on them).  Proofs: ParseOutcomes.v, ScopeProofs.v.
+
+   What is NOT a theorem here (oracles, DESIGN.md section 9): pydantic's own behaviour on junk
+   (non-string keys, the loc elements of its errors), _loc_to_str on them, json/yaml parsers behind
+   document_string_to_object; "input left untouched" is purity by construction in the model (every
+   function below is a Gallina function of its argument) and is checked on the implementation by
+   deep snapshot in harness/c04.py. *)
+From Coq Require Import List NArith ZArith Bool String.
 Import ListNotations.
-Require Import OJD.Base OJD.Json OJD.Schema OJD.Generated.
+Require Import OJD.Base OJD.Lexer OJD.Json OJD.Schema OJD.Generated OJD.FsRefs OJD.CreateJob OJD.Parse
+               OJD.Validators OJD.Accept OJD.ScopeWalk OJD.Export OJD.ParseOutcomes.
 Local Open Scope string_scope.
-Example C04_schema_has_root : match lookup_cls Generated.schema "JobTemplate" with Some _ => True | None => False end.
-Proof. vm_compute. exact I. Qed.
+
+(* the structural layer never produces anything but accept / reject / not-judged: for EVERY schema,
+   class table, hooks, fuel, kind or class, and json value.  No TypeError / KeyError /
+   AttributeError / IndexError branch exists. *)
+Theorem C04_outcomes_kind : forall SC classify pre post fuel k v e,
+  parse_kind SC classify pre post fuel k v = Raise e -> e = ValueError \/ e = RuntimeError.
+Proof. exact parse_kind_outcomes. Qed.
+Print Assumptions C04_outcomes_kind.
+
+Theorem C04_outcomes_cls : forall SC classify pre post fuel c v e,
+  parse_cls SC classify pre post fuel c v = Raise e -> e = ValueError \/ e = RuntimeError.
+Proof. exact parse_cls_outcomes. Qed.
+Print Assumptions C04_outcomes_cls.
+
+(* hence the two decode functions, on every json value *)
+Theorem C04_outcomes : forall classify j e,
+  (decode_job classify j = Raise e -> e = ValueError \/ e = RuntimeError) /\
+  (decode_env classify j = Raise e -> e = ValueError \/ e = RuntimeError).
+Proof.
+  intros classify j e. split; [apply decode_job_outcomes|apply decode_env_outcomes].
+Qed.
+Print Assumptions C04_outcomes.
+
+(* ... and the job-side re-validation parse_model(model=<target class>) used by create_job *)
+Theorem C04_outcomes_any : forall classify root j e,
+  parse_any classify root j = Raise e -> e = ValueError \/ e = RuntimeError.
+Proof. exact parse_any_outcomes. Qed.
+Print Assumptions C04_outcomes_any.
+
+(* the pre-validation walk is total on every json value (it is a list-valued function) and
+   reports reference errors only: the fuel marker never occurs (C03_no_fuel restated) *)
+Theorem C04_walk_total : forall refs j,
+  (forall w, In w (prevalidate Generated.schema refs "JobTemplate" j) -> exists l n, w = ERef l n) /\
+  (forall w, In w (prevalidate Generated.schema refs "EnvironmentTemplate" j) -> exists l n, w = ERef l n).
+Proof. exact walk_total. Qed.
+Print Assumptions C04_walk_total.
+
+(* version dispatch of decode_job_template / decode_environment_template: a document whose
+   specificationVersion is missing, not a string, or not a version of that template kind is
+   rejected with DecodeValidationError (never anything else); otherwise the root model is parsed *)
+Theorem C04_version_dispatch : forall classify ms,
+  (~ version_in Generated.job_template_versions (JObj ms) -> decode_job classify (JObj ms) = Raise ValueError) /\
+  (version_in Generated.job_template_versions (JObj ms) ->
+   decode_job classify (JObj ms) = parse_template classify "JobTemplate" (JObj ms)) /\
+  (~ version_in Generated.env_template_versions (JObj ms) -> decode_env classify (JObj ms) = Raise ValueError) /\
+  (version_in Generated.env_template_versions (JObj ms) ->
+   decode_env classify (JObj ms) = parse_template classify "EnvironmentTemplate" (JObj ms)).
+Proof.
+  intros classify ms.
+  destruct (decode_job_dispatch classify ms) as [A B]. destruct (decode_env_dispatch classify ms) as [C D].
+  repeat split; assumption.
+Qed.
+Print Assumptions C04_version_dispatch.
+
+(* [version_in] unfolded: the key is present with a string value that is one of the versions *)
+Theorem C04_version_in_iff : forall versions j,
+  version_ok versions j = true <->
+  exists s, jget "specificationVersion" j = JStr s /\ exists v, In v versions /\ s = str_of_string v.
+Proof. exact version_ok_iff. Qed.
+Print Assumptions C04_version_in_iff.
+
+Theorem C04_versions_now :
+  Generated.job_template_versions = ["jobtemplate-2023-09"] /\
+  Generated.env_template_versions = ["environment-2023-09"].
+Proof. exact versions_now. Qed.
+Print Assumptions C04_versions_now.
+
+(* an accepted job template has passed the reference check (the root's validator runs the walker
+   on the raw document and the result is part of the verdict) *)
+Theorem C04_accept_prevalidated : forall classify j t,
+  decode_job classify j = Ok t -> prevalidate Generated.schema (fs_refs classify) "JobTemplate" j = [].
+Proof. exact decode_job_prevalidated. Qed.
+Print Assumptions C04_accept_prevalidated.
+
+(* ------------------------------------------------------------------ non-vacuity *)
+Definition js (x : string) : json := JStr (str_of_string x).
+Definition jo (l : list (string * json)) : json := JObj (map (fun kv => (str_of_string (fst kv), snd kv)) l).
+
+Definition step_ok : json :=
+  jo [("name", js "A"); ("script", jo [("actions", jo [("onRun", jo [("command", js "run")])])])].
+Definition doc (version name : json) : json :=
+  jo [("specificationVersion", version); ("name", name); ("steps", JArr [step_ok])].
+
+(* accepted / rejected by version / rejected by type confusion / rejected junk at depth / not judged *)
+Example C04_outcomes_nonvacuous :
+  is_ok (decode_job ascii_class (doc (js "jobtemplate-2023-09") (js "Job"))) = true /\
+  decode_job ascii_class (doc (js "environment-2023-09") (js "Job")) = Raise ValueError /\
+  decode_job ascii_class (doc (JInt 3) (js "Job")) = Raise ValueError /\
+  decode_job ascii_class (jo [("name", js "Job")]) = Raise ValueError /\
+  decode_job ascii_class (doc (js "jobtemplate-2023-09") (JArr [JNull])) = Raise ValueError /\
+  decode_job ascii_class (doc (js "jobtemplate-2023-09") (jo [("x", JInt 1)])) = Raise ValueError /\
+  decode_job ascii_class (jo [("specificationVersion", js "jobtemplate-2023-09"); ("name", js "J");
+                              ("steps", JArr [jo [("name", JNull); ("script", JArr [JBool true; jo []])]])])
+  = Raise ValueError /\
+  decode_env ascii_class (doc (js "jobtemplate-2023-09") (js "Job")) = Raise ValueError /\
+  decode_job ascii_class (JArr []) = Raise RuntimeError /\
+  parse_kind Generated.schema ascii_class pre_hook (post_hook ascii_class) 1 (KFloat None) (js "1.5") = Raise RuntimeError.
+Proof. vm_compute. repeat split. Qed.
+
+Example C04_version_dispatch_nonvacuous :
+  version_in Generated.job_template_versions (doc (js "jobtemplate-2023-09") (js "Job")) /\
+  ~ version_in Generated.job_template_versions (doc (JInt 3) (js "Job")) /\
+  ~ version_in Generated.job_template_versions (jo [("name", js "Job")]).
+Proof.
+  split; [|split].
+  - apply version_ok_iff. vm_compute. reflexivity.
+  - intros H. apply version_ok_iff in H. vm_compute in H. discriminate H.
+  - intros H. apply version_ok_iff in H. vm_compute in H. discriminate H.
+Qed.
+
+Example C04_walk_nonvacuous :
+  prevalidate Generated.schema (fs_refs ascii_class) "JobTemplate" (doc (js "jobtemplate-2023-09") (js "{{Param.X}}"))
+  = [ERef [LKey (str_of_string "name")] (str_of_string "Param.X")] /\
+  prevalidate Generated.schema (fs_refs ascii_class) "JobTemplate" (JArr [JNull; JInt 1]) = [] /\
+  prevalidate Generated.schema (fs_refs ascii_class) "JobTemplate"
+              (jo [("name", JInt 1); ("steps", jo [("x", JArr [])]); ("jobEnvironments", JArr [JNull; js "{{A.B}}"])]) = [].
+Proof. vm_compute. repeat split. Qed.
